@@ -2,6 +2,7 @@ package rules
 
 import (
 	"fmt"
+	"go/constant"
 	"go/types"
 	"strings"
 
@@ -57,6 +58,7 @@ func runC06(r *fw.Run, p *fw.Program) {
 	c06Idx(r, p, reach)
 	c06Force(r, p)
 	c06Param(r, p, reach)
+	c06BufSlice(r, p, reach)
 	c06Sym(r, p)
 	c06OutType(r, p)
 }
@@ -266,8 +268,6 @@ var panicExceptions = map[string]string{
 	"format/tls/tlsdecrypt.aeadAESGCM|error|":                                                 "needs a user-supplied TLS keylog; key length fixed by the cipherSuite table",
 	"format/tls/tlsdecrypt.aeadChaCha20Poly1305|string|tls: internal error: wrong nonce length": "internal contract: nonce length fixed by the cipherSuite table",
 	"format/tls/tlsdecrypt.aeadChaCha20Poly1305|error|":                                       "needs a user-supplied TLS keylog; key length fixed by the cipherSuite table",
-	"format/tls/tlsdecrypt.prfAndHashForVersion|string|unknown version":       "api-misuse: Decryptor.Decrypt rejects versions other than TLS1.0-1.2 (SSL3.0 only with export suites) before key derivation",
-	"format/tls/tlsdecrypt.exportKeysFromMasterSecret|string|unknown version": "api-misuse: Decryptor.Decrypt rejects versions other than TLS1.0-1.2 (SSL3.0 only with export suites) before key derivation",
 	"format/ogg.decodeOgg$1|string|page decode is not a oggPageOut":                           "format out-value contract (ogg_page always returns format.Ogg_Page_Out; C06.outtype)",
 }
 
@@ -348,6 +348,12 @@ func panicClass(p *fw.Program, pn *ssa.Panic) string {
 	}
 	if r := outTypeContract(p, pn); r != "" {
 		return r
+	}
+	if s, ok := constString(pn.X); ok && s == "unknown version" && pkgRel(fn) == "format/tls/tlsdecrypt" {
+		if tlsVersionGuarded(p) {
+			return "api-misuse, checked: (*Decryptor).Decrypt reaches key derivation only through a version == TLS1.0/1.1/1.2/SSL3.0 test (other versions return an error)"
+		}
+		return ""
 	}
 	if r := exhaustiveTypeSwitch(p, pn); r != "" {
 		return r
@@ -568,4 +574,75 @@ func c06ErrVal(r *fw.Run, p *fw.Program, roots []*ssa.Function) {
 		})
 		ru.Check(bad == "", fw.ShortFn(f), p.Rel(pos), "no error-typed out value", "DecodeFn "+bad+" as its out value instead of failing through Fatalf/IOPanic")
 	}
+}
+
+// tlsVersionGuarded: in (*tlsdecrypt.Decryptor).Decrypt the establishKeys call is unreachable once
+// the true-edges of the `version == <supported constant>` tests are removed.
+func tlsVersionGuarded(p *fw.Program) bool {
+	fn := p.Fn("(*format/tls/tlsdecrypt.Decryptor).Decrypt")
+	if fn == nil || len(fn.Blocks) == 0 {
+		return false
+	}
+	var target *ssa.BasicBlock
+	for _, c := range fw.CallsIn(fn) {
+		if cal := c.Common().StaticCallee(); cal != nil && cal.Name() == "establishKeys" {
+			target = c.Block()
+		}
+	}
+	if target == nil {
+		return false
+	}
+	supported := map[int64]bool{0x0300: true, 0x0301: true, 0x0302: true, 0x0303: true}
+
+	type edge struct{ from, to *ssa.BasicBlock }
+	seen := map[edge]bool{}
+	stack := []edge{{nil, fn.Blocks[0]}}
+	for len(stack) > 0 {
+		e := stack[len(stack)-1]
+		stack = stack[:len(stack)-1]
+		if seen[e] {
+			continue
+		}
+		seen[e] = true
+		b := e.to
+		if b == target {
+			return false
+		}
+		push := func(to *ssa.BasicBlock) { stack = append(stack, edge{b, to}) }
+		if ifi, ok := b.Instrs[len(b.Instrs)-1].(*ssa.If); ok {
+			// a && / || join: the condition is a phi whose value on the incoming edge is a constant
+			if ph, ok := ifi.Cond.(*ssa.Phi); ok && ph.Block() == b && e.from != nil {
+				for i, pred := range b.Preds {
+					if pred != e.from {
+						continue
+					}
+					if c, ok := ph.Edges[i].(*ssa.Const); ok && c.Value != nil && c.Value.Kind() == constant.Bool {
+						if constant.BoolVal(c.Value) {
+							push(b.Succs[0])
+						} else {
+							push(b.Succs[1])
+						}
+						goto next
+					}
+				}
+			}
+			if bo, ok := ifi.Cond.(*ssa.BinOp); ok && bo.Op.String() == "==" {
+				isAccept := false
+				for _, o := range []ssa.Value{bo.X, bo.Y} {
+					if c, ok := o.(*ssa.Const); ok && c.Value != nil && c.Value.Kind() == constant.Int && supported[c.Int64()] {
+						isAccept = true
+					}
+				}
+				if isAccept {
+					push(b.Succs[1]) // only the false edge: the accepting edge is removed
+					continue
+				}
+			}
+		}
+		for _, sc := range b.Succs {
+			push(sc)
+		}
+	next:
+	}
+	return true
 }
